@@ -237,6 +237,34 @@ pub const MALFORMED: [&str; 64] = [
     "A1<>=B1", "+", "-", "+-+", "%", "%%", "1%%", "@A1", "@SUM(A1)", "=A1", "A1:B2:C3", "$", "A1!B1!C1",
 ];
 
+/// `LexOk` of Umya/Lemmas/FormulaLexExpr.lean mirrored on the generator's AST: the hypothesis of
+/// `C09_lex_print` (an ordinary character is one that the tokenizer appends to its accumulator)
+fn is_ord(c: char) -> bool {
+    !"\"'[#{;} <>+-*/^&=%(),".contains(c)
+}
+fn ord_text(t: &str) -> bool {
+    !t.is_empty() && t.chars().all(is_ord)
+}
+fn is_range_text(t: &str) -> bool {
+    t.parse::<f64>().is_err() && t.to_ascii_uppercase() != "TRUE" && t.to_ascii_uppercase() != "FALSE"
+}
+pub fn lex_ok(e: &E) -> bool {
+    match e {
+        E::Num(t) => ord_text(t) && t.parse::<f64>().is_ok(),
+        E::Str(_) | E::Bool(_) | E::Err(_) => true,
+        E::Name(n) => ord_text(n) && is_range_text(n),
+        E::Ref(r) => {
+            r.sheet.as_ref().map_or(true, |q| !q.name.is_empty() && (q.quoted || q.name.chars().all(is_ord)))
+                && is_range_text(&ref_txt(r))
+        }
+        E::Struct(_) | E::Array(_) | E::Isect(_, _) => false,
+        E::Pre(_, a) | E::Post(a) | E::Paren(a) => lex_ok(a),
+        E::Bin(_, a, b) => lex_ok(a) && lex_ok(b),
+        E::Union(v) => v.iter().all(lex_ok),
+        E::Call(f, args) => ord_text(f) && !f.starts_with('@') && args.iter().all(|x| x.as_ref().map_or(true, lex_ok)),
+    }
+}
+
 pub fn gen(tier: Tier, seed: u64) -> Vec<String> {
     let mut rng = Rng::new(seed);
     let mut v: Vec<String> = vec![];
@@ -253,6 +281,13 @@ pub fn gen(tier: Tier, seed: u64) -> Vec<String> {
         }
         made += 1;
         let (feat, tags) = tags_of(&e);
+        // the hypothesis of C09_lex_print / C09_translate_text, evaluated on the AST (informational tag), and for the
+        // expressions inside the fragment the exact printed text (no optional blanks) through both tokenizers
+        let lexok = lex_ok(&e);
+        let tags = format!("{}+{}", tags, if lexok { "lexok" } else { "lexok-not" });
+        if lexok {
+            v.push(format!("c09 ident {} {} - {}+lexprint", hex(&exp), hex(&exp), tags));
+        }
         let pm = if rng.chance(1, 2) { 0 } else { 250 };
         let mut src = print_src(&e, &mut rng, pm);
         if rng.chance(1, 20) {
